@@ -22,7 +22,7 @@ CLAIMED = {
              "table, one-step null propagation, word transitions, fsg_search_find_exit and backtrace only ever report "
              "sentences (final) / path prefixes (partial) of the user's grammar; the real decoder is then run over a seeded "
              "matrix of grammars x audio x beams x chunkings with partial and final queries and every recorded result is "
-             "validated by TLC against the same Layer-A predicate using NFA acceptance of the user's grammar.",
+             "validated by TLC against the same Layer-A predicate using NFA acceptance of the user's grammar. Every word-exit history table the abstract search reaches (TLC export of FsgSearchAbs, about 14.7k tables over 8 grammar shapes; a seeded sample of 1.5-2k in the quick tier) is also written into a real search object with the library's own history functions, and the unchanged extraction code (find_exit, backtrace, segment iterator, lattice construction) runs on it; its results go through the same trace specification.",
         note="Trusted: TLC; the recorder harness/decoder/dec_drv.c; the user's grammar is the FSG returned by the public "
              "readers/compiler before the search adds silence/alternate arcs (JSGF semantics is C05); filler words are those "
              "flagged by the dictionary. Real-code coverage = the executed cases (160 quick / 2500 thorough per seed).",
@@ -34,7 +34,7 @@ CLAIMED = {
              "[0, last frame] with no gap/overlap, keeps null segments zero-length, and that segment scores sum to the path "
              "score, for every search outcome at the bounds; every recorded real result (partial and final) and every "
              "processing call's return value is validated by TLC: tiling, null markers, hypothesis = base forms of non-filler "
-             "segments, score additivity, per-call frame counts and their sum against the front-end frame count formula.",
+             "segments, score additivity, per-call frame counts and their sum against the front-end frame count formula. Every word-exit history table the abstract search reaches (TLC export of FsgSearchAbs, about 14.7k tables over 8 grammar shapes; a seeded sample of 1.5-2k in the quick tier) is also written into a real search object with the library's own history functions, and the unchanged extraction code (find_exit, backtrace, segment iterator, lattice construction) runs on it; its results go through the same trace specification.",
         note="Trusted: TLC; recorder; frames searched are counted by a linker wrap of acmod_score; the frame-count formula "
              "NF(samples) is the one established for the front end in C06 (FrameStream).",
         technique="TLA+ abstract search model checked by TLC; TLC trace validation of recorded segmentations, scores and "
@@ -47,7 +47,7 @@ CLAIMED = {
              "every node on a start-end path, node/link time consistency, every path a grammar path, first-best present) "
              "for the lattice of EVERY abstract search outcome at the bounds, mid-utterance and final; lattices dumped from "
              "the real decoder through the public node/link iterators over the decode matrix are validated by TLC against "
-             "the same predicate, together with 'asking again returns the same object'.",
+             "the same predicate, together with 'asking again returns the same object'. Every word-exit history table the abstract search reaches (TLC export of FsgSearchAbs, about 14.7k tables over 8 grammar shapes; a seeded sample of 1.5-2k in the quick tier) is also written into a real search object with the library's own history functions, and the unchanged extraction code (find_exit, backtrace, segment iterator, lattice construction) runs on it; its results go through the same trace specification.",
         note="Trusted: TLC; recorder; G = FSG before silence/alternate arcs; <s>/</s> nodes are synthetic. One genuine "
              "defect is recorded (known_findings.json: a first-best that is a single word instance from frame 0 is deleted "
              "from the lattice); the model carries the same named exception (KnownGap) and nothing else is excused.",
